@@ -153,7 +153,7 @@ variable {E M : Type} [DecidableEq E] {c : Codec E M}
 /-- With the canonical emission order (`CompSys.canon`: `output` first, compartments by name, each
     adjacency by successor name) two `==` systems serialise identically, whatever the insertion
     orders of nodes and edges were (any number of compartments and flows). -/
-theorem encode'_canonical (s1 s2 : CompSys E) (h1 : s1.g.NamesDistinct) (h2 : s2.g.NamesDistinct)
+theorem encode_repaired_canonical (s1 s2 : CompSys E) (h1 : s1.g.NamesDistinct) (h2 : s2.g.NamesDistinct)
     (h : s1.eqv s2 = true) : s1.canon.toDict c = s2.canon.toDict c := by
   simp only [CompSys.eqv, Bool.and_eq_true, decide_eq_true_eq] at h
   have hg := canon_eq_of_eqv s1.g s2.g h1 h2 h.2
@@ -162,14 +162,14 @@ theorem encode'_canonical (s1 s2 : CompSys E) (h1 : s1.g.NamesDistinct) (h2 : s2
 /-- The code as it is: `==` systems serialise identically when both already are in canonical order. -/
 theorem encode_canonical_partial (s1 s2 : CompSys E) (h1 : s1.g.NamesDistinct) (h2 : s2.g.NamesDistinct)
     (hc1 : s1.canon = s1) (hc2 : s2.canon = s2) (h : s1.eqv s2 = true) : s1.toDict c = s2.toDict c := by
-  have := encode'_canonical (c := c) s1 s2 h1 h2 h
+  have := encode_repaired_canonical (c := c) s1 s2 h1 h2 h
   rwa [hc1, hc2] at this
 
 end
 
 /-- the repair removes the F4 witness -/
-theorem encode'_canonical_on_witness : wSys1.canon.toDict strCodec = wSys2.canon.toDict strCodec :=
-  encode'_canonical wSys1 wSys2 (by decide) (by decide) (by decide)
+theorem encode_repaired_canonical_on_witness : wSys1.canon.toDict strCodec = wSys2.canon.toDict strCodec :=
+  encode_repaired_canonical wSys1 wSys2 (by decide) (by decide) (by decide)
 
 /-! ### Non-vacuity: the hypotheses are satisfiable on non-trivial inputs -/
 
